@@ -118,6 +118,11 @@ class Program:
             body = bytes(r.choice([b for b in range(256) if b not in (0x46,)]) for _ in range(r.randint(0, 6)))
             return self.new('lit', self.builtin('char'), hexs(b'"' + body + b'"'))
         body = bytes(r.choice(b'abc\n\t\\\'"\x00\x01\x02\x03\x07\x08\x0b\x0c\r xyz') for _ in range(r.randint(1, 8)))
+        if r.random() < 0.35:
+            # spellings that fill their storage slot exactly (8, 24, 40 bytes) and end in a byte after which an escape-printing routine may
+            # want to look at "the next character": NUL, backslash, a control byte, a quote
+            n = r.choice([8, 8, 24, 40])
+            body = (body * 6)[:n - 1] + bytes([r.choice(b'\x00\x00\\\x01\x03"\'')])
         return self.new('lit', self.builtin('char8_t'), hexs(body))
 
     # -- types
